@@ -26,6 +26,7 @@ const rule = "Each case is a scenario of op lines run in its own child process o
 	"(`chan unset|0|1|2`: SetErrorReportingChannel of that capacity which only `recv`/`park` ops read) with more panics than " +
 	"the channel holds, late and parked consumers, lifecycle routines and bursts with a full channel; " +
 	"API handler functions of every endpoint type additionally with the option core/devMode on (and toggled within a scenario); " +
+	"a stop routine that panics / fails / is healthy / is absent x every kind of work that ignores the cancellation and outlives a short stop timeout (`stoptimeout short`: the timeout branch of stopAllTasks) x the module stopped by Shutdown / by a management pass; " +
 	"plus service-worker outcome sequences, management passes, items ending at module stop, the same module through several lives (stopped and restarted with work before, during and after), random mixed scenarios, " +
 	"free-running bursts and a malformed-op stream. Non-trivial = the case contains at least one executed panic; " +
 	"distinct = distinct op-line sequence."
@@ -463,6 +464,79 @@ func (b *builder) onstopCase() {
 	b.add("onstop", lines, false)
 }
 
+// stopTimeoutCase: the stop-TIMEOUT branch of stopAllTasks. Module A has a stop routine that panics (fails / is
+// healthy / is absent) and a piece of work that ignores the cancellation (held, not `onstop`) and so outlives the
+// short stop timeout; A is stopped by Shutdown or by a management pass. The stop routine's panic has to come back as
+// the error of Shutdown / ManageModules there too. Next to the lingering work: items that end (some panicking) at the
+// cancellation, an item that finished before, a second module with a (panicking) stop routine that A depends on.
+func (b *builder) stopTimeoutCase(byMgmt bool, lingerKind, stopTok string) {
+	rng := b.r.Rng
+	lines := []string{"stoptimeout short"}
+	third := rng.Intn(3) == 0
+	if third {
+		tokC := []string{"ok", "p:str", "p:err", "-", "err"}[rng.Intn(5)]
+		lines = append(lines, "mod C ok ok "+tokC, "mod A ok ok "+stopTok+" C", "mod B - - -")
+	} else {
+		lines = append(lines, "mod A ok ok "+stopTok, "mod B - - -")
+	}
+	if byMgmt {
+		if third {
+			lines = append(lines, "mgmt A=on B=on C=off") // C is needed by A only: it goes down with A
+		} else {
+			lines = append(lines, "mgmt A=on B=on")
+		}
+	}
+	lines = append(lines, "start", "settle", "status")
+	id := 1
+	linger := []string{}
+	spawn := func(kind, outs, flag string) string {
+		l := spec{id: strconv.Itoa(id), kind: kind, outs: outs, flag: flag}.line()
+		id++
+		return l
+	}
+	lines = append(lines, spawn(lingerKind, "ok", ""))
+	linger = append(linger, "1")
+	if rng.Intn(4) == 0 {
+		k := workKinds[rng.Intn(len(workKinds))]
+		lines = append(lines, spawn(k, randOutcome(rng, 40, false), ""))
+		linger = append(linger, strconv.Itoa(id-1))
+		b.r.Count("stop-timeout:second-lingering:" + k)
+	}
+	if rng.Intn(2) == 0 { // an item that has finished (perhaps by a panic) before the stop
+		k := workKinds[rng.Intn(len(workKinds))]
+		o := randOutcome(rng, 50, false)
+		if k == "svc" {
+			o = "ok"
+		}
+		lines = append(lines, spawn(k, o, ""), "finish "+strconv.Itoa(id-1))
+	}
+	// items that end when the context is cancelled; at most one of them by a panic (which of two concurrent panics is
+	// reported last — `last=` of the following lines — is up to the scheduler)
+	for n, first := rng.Intn(3), true; n > 0; n, first = n-1, false {
+		k := []string{"runworker", "startworker", "svc", "mt-start-high", "mt-run-high", "hook-trigger"}[rng.Intn(6)]
+		o := healthyOutcome(rng)
+		if first {
+			o = randOutcome(rng, 50, false)
+		}
+		lines = append(lines, spawn(k, o, "onstop"))
+		b.r.Count("stop-timeout:onstop:" + k)
+	}
+	lines = append(lines, "status")
+	if byMgmt {
+		lines = append(lines, "disable A", "manage", "status")
+		for _, l := range linger {
+			lines = append(lines, "finish "+l)
+		}
+		lines = append(lines, "status", "settle", "shutdown")
+	} else {
+		lines = append(lines, "shutdown")
+	}
+	b.r.Count("stop-timeout:lingering:" + lingerKind)
+	b.r.Count("stop-timeout:stop-routine:" + strings.SplitN(stopTok, ":", 2)[0])
+	b.r.Count("stop-timeout:by:" + map[bool]string{true: "management-pass", false: "shutdown"}[byMgmt])
+	b.add("stop-timeout", lines, false)
+}
+
 func (b *builder) burstCase(api bool) {
 	rng := b.r.Rng
 	n := 2 + rng.Intn(14)
@@ -876,6 +950,40 @@ func generate(r *hxlib.Run, emit func(hxlib.Case)) {
 	b.add("corpus", []string{"mod A ok ok p:str", "mod B - - -", "chan 1", "start", "settle", "status", "spawn 1 runworker p:str",
 		"spawn 2 runworker p:err", "spawn 3 mt-run-high p:nil", "finish 1", "finish 2", "finish 3", "status", "recv 1",
 		"spawn 4 task-queue p:rtidx", "finish 4", "requeue 4 task-queue ok", "finish 4", "recv all", "settle", "shutdown"}, false)
+
+	// a stop routine that panics while a worker of the module outlives the (short) stop timeout: by Shutdown, by a
+	// management pass
+	b.add("corpus", []string{"stoptimeout short", "mod A ok ok p:str", "mod B - - -", "start", "settle", "status", "spawn 1 startworker ok",
+		"status", "shutdown"}, false)
+	b.add("corpus", []string{"stoptimeout short", "mod A ok ok p:err", "mod B - - -", "mgmt A=on B=on", "start", "settle", "status",
+		"spawn 1 task-queue ok", "spawn 2 runworker p:str onstop", "status", "disable A", "manage", "status", "finish 1", "status", "settle", "shutdown"}, false)
+	// 0. stop routine outcome x kind of the work that outlives the stop timeout x who stops the module
+	// (drawn from a generator of its own, so that the scenarios of the older classes are the same as before for a seed)
+	{
+		shared := r.Rng
+		r.Rng = rand.New(rand.NewSource(r.Seed*7919 + 506))
+		rng := r.Rng
+		lingerKinds := append(append([]string{}, workKinds...), taskKinds...)
+		k := 0
+		for _, byMgmt := range []bool{false, true} {
+			for _, lk := range lingerKinds {
+				// quick: every kind once per way of stopping, with a panicking stop routine; thorough: x every outcome
+				toks := []string{"p:" + mainPVs[k%len(mainPVs)]}
+				if r.Thorough {
+					toks = []string{"p:str", "p:nil", "p:err", "p:rtidx", "p:canc", "err", "ok", "-"}
+				}
+				for _, tok := range toks {
+					b.stopTimeoutCase(byMgmt, lk, tok)
+				}
+				k++
+			}
+		}
+		for i := r.Budget(12, 400); i > 0; i-- {
+			tok := []string{"err", "ok", "-", "p:" + allPVs()[rng.Intn(len(allPVs()))]}[rng.Intn(4)]
+			b.stopTimeoutCase(rng.Intn(2) == 0, lingerKinds[rng.Intn(len(lingerKinds))], tok)
+		}
+		r.Rng = shared
+	}
 
 	allKinds := append(append(append([]string{}, workKinds...), taskKinds...), apiKinds...)
 	// 0a. service worker x sentinel-like panic value x (n, position); sequences of them
